@@ -876,7 +876,8 @@ def _decision_table(F, b, getters):
 
 def _writer_paths(F, b, setters, cursor_name='idx'):
     """writer: every path -> (last constant passed to each mode setter, total constant advance of the cursor)"""
-    L = [i for i, l in enumerate(b.locals) if l.get('name') == cursor_name]
+    # the write cursor: the last parameter of type usize (the setters take `mut idx: usize` and return it)
+    L = [i for i in range(b.nargs, 0, -1) if b.locals[i]['ty'] == 'usize'][:1]
     res = set()
 
     def walk_(bi, st, adv, depth, seen):
